@@ -175,8 +175,11 @@ def payload(rng, words):
         r = rng.random()
         if r < 0.55 and words:
             parts.append(mangle_case(rng, rng.choice(words)))
-        elif r < 0.8:
+        elif r < 0.75:
             parts.append(rng.choice([b"http://evil.example.com/payload.exe", b"https://a.example.net/x?y=1", b"10.20.30.40", b"bob@example.org", b"C:\\Windows\\System32\\cmd.exe"]))
+        elif r < 0.85:
+            # printable non-ASCII UTF-8 text (what a "show readable text" feature would print verbatim)
+            parts.append(rng.choice(["caf\u00e9 au lait", "na\u00efve r\u00e9sum\u00e9", "\u65e5\u672c\u8a9e\u30c6\u30ad\u30b9\u30c8", "\u00fcber gr\u00f6\u00dfe"]).encode("utf-8"))
         else:
             parts.append(bytes(rng.randrange(32, 127) for _ in range(rng.randint(3, 12))))
     return b" ".join(parts)
@@ -226,7 +229,7 @@ def snippet(rng, words, depth=0):
     return base64.b64encode(base64.b64encode(p))
 
 
-def gen_input(rng, words, hot, max_len=2048, exotic=False):
+def gen_input(rng, words, hot, max_len=2048, exotic=False, bulk=False, sizes=None):
     """words: keyword pool; hot: collision words (preferred)."""
     parts = []
     n = rng.choice([1, 1, 2, 3, 4, 6, 8])
@@ -256,7 +259,18 @@ def gen_input(rng, words, hot, max_len=2048, exotic=False):
             out += b"\x00\x00\xff\xfe\xc3\x28"
         if r < 0.18:
             out = bytearray(b"\xef\xbb\xbf") + out
-    return bytes(out[:max_len])
+    out = out[:max_len]
+    if bulk and out:
+        # a large buffer: the same material repeated between filler lines (size thresholds,
+        # block-wise readers, "only for big inputs" fast paths)
+        target = rng.choice(sizes or [4200, 5000, 9000, 20000, 66000])
+        filler = [b"lorem ipsum dolor sit amet", b"-- 0123456789 --", b"the quick brown fox", b""]
+        big = bytearray()
+        while len(big) < target:
+            big += out if rng.random() < 0.5 else rng.choice(filler)
+            big += rng.choice([b"\n", b"\r\n", b" ", b"\n\n"])
+        out = big[: target + rng.randint(0, 300)]
+    return bytes(out)
 
 
 def io_knobs(rng):
@@ -269,8 +283,10 @@ def io_knobs(rng):
 
 def sched_spec(rng, heavy):
     r = rng.random()
-    scope = "engine" if r < 0.55 else ("nokw" if r < 0.85 else "all")
-    kind = rng.choice(["rw", "rw", "rw", "pct", "pct", "rtc"])
+    scope = "engine" if r < 0.45 else ("nokw" if r < 0.7 else "all")
+    kind = rng.choice(["rw", "rw", "sw", "sw", "sw", "pct", "rtc"])
+    if scope == "all" and rng.random() < 0.6:
+        kind = "sw"  # the only policy that reaches rare lines between the keyword loops
     spec = {"policy": kind, "seed": rng.randrange(1 << 30), "scope": scope, "view": rng.random() < 0.3}
     if kind == "rw":
         if scope == "engine":
@@ -278,13 +294,28 @@ def sched_spec(rng, heavy):
         elif scope == "nokw":
             spec["quantum"] = rng.choice([1, 3, 10, 30, 100, 1000])
         else:
-            spec["quantum"] = rng.choice([20, 50, 500, 5000] if heavy else [2, 5, 20, 100, 1000])
+            spec["quantum"] = rng.choice([200, 1000, 5000] if heavy else [5, 20, 100, 1000])
+    if kind == "sw":
+        spec["k"] = rng.choice([0.3, 1.0, 1.0, 3.0])
     if kind == "pct":
         spec["depth"] = rng.choice([1, 2, 3])
     return spec
 
 
 MODULES = model.DECODER_MODULES
+KWDIR_FORMS = ["abs", "abs", "rel", "dot", "slash", "abs_slash"]
+
+
+def lib_sched_spec(rng):
+    """Policy for threads the code under test starts itself (tier 2)."""
+    kind = rng.choice(["rw", "rw", "rtc", "pct"])
+    spec = {"policy": kind, "seed": rng.randrange(1 << 30), "scope": rng.choice(["nokw", "nokw", "engine", "all"]),
+            "timeout_fire_p": rng.choice([0.0, 0.0, 0.02, 0.2])}
+    if kind == "rw":
+        spec["quantum"] = rng.choice([3, 20, 200, 5000])
+    if kind == "pct":
+        spec["depth"] = rng.choice([1, 2, 3])
+    return spec
 
 
 def gen_filter(rng, allow_none=True):
@@ -329,7 +360,8 @@ def gen_c09(seed, shipped, tier="quick"):
         words = layout_words(kw)
     inc, exc = (None, None) if rng.random() < 0.7 else gen_filter(rng)
     ncorp = rng.choice([1, 1, 2, 2, 3, 4])
-    corpus = [gen_input(rng, words, hot, exotic=rng.random() < 0.2) for _ in range(ncorp)]
+    corpus = [gen_input(rng, words, hot, exotic=rng.random() < 0.2, bulk=rng.random() < 0.1, sizes=[4200, 4200, 5000, 9000]) for _ in range(ncorp)]
+    ascii_labels = use_shipped or all(ord(ch) < 128 for f in kw["files"] for ch in f["path"])
     keys = []
     for _ in range(rng.randint(1, 3)):
         i = rng.randrange(ncorp)
@@ -345,8 +377,8 @@ def gen_c09(seed, shipped, tier="quick"):
     keys.sort(key=lambda k: (k[1] if k[1] > 0 else 0, k[0]))
     cli_ok = inc is None and exc is None
     cli_keys = []
-    if cli_ok and rng.random() < 0.35:
-        cli_keys.append([rng.choice(["json", "default", "replace"]), rng.randrange(ncorp)])
+    if cli_ok and rng.random() < 0.5:
+        cli_keys.append([rng.choice(["json", "default", "default", "replace"]), rng.randrange(ncorp)])
     nworlds = rng.choice([2, 3, 3, 4])
     worlds = []
     h0 = rng.choice([0, 1, rng.randrange(1 << 32)])
@@ -387,20 +419,30 @@ def gen_c09(seed, shipped, tier="quick"):
             elif r < 0.93 and cli_keys:
                 m, ci = rng.choice(cli_keys)
                 ops.append(["cli", m, rng.choice(["stdin", "file"]), ci])
-            elif r < 0.96:
+            elif r < 0.95:
                 ops.append(["gc"])
+            elif r < 0.97:
+                ops.append(["import", rng.choice(MODULES)])
             else:
                 # a scan of some other input (history), never compared across worlds unless keyed equal
                 ops.append(["scan", s, rng.randrange(ncorp), rng.choice(DEPTHS)])
         if not any(o[0] in ("scan", "scan_node", "par_scan") for o in ops):
             i, d = rng.choice(keys)
             ops.append(["scan", "s0", i, d])
+        if cli_keys and not any(o[0] == "cli" for o in ops):
+            m, ci = rng.choice(cli_keys)
+            ops.insert(rng.randint(1, len(ops)), ["cli", m, rng.choice(["stdin", "file"]), ci])
         worlds.append({
             "hashseed": h, "enum_seed": e, "io_seed": rng.randrange(1 << 30), "env_seed": rng.randrange(1, 1 << 30), "io": io_knobs(rng),
             "env": {"LC_ALL": rng.choice([None, "C", "C.UTF-8"]), "opt": rng.choice(["", "", "-O"])},
             "default_ctor": rng.random() < 0.5,
+            "kwdir_form": rng.choice(KWDIR_FORMS),
+            "lib_sched": lib_sched_spec(rng),
             "ops": ops,
         })
+        if ascii_labels:
+            # with ASCII labels every CLI mode writes pure ASCII, so the bytes may not depend on the stream encoding
+            worlds[-1]["io"]["stdout_encoding"] = rng.choice(["utf-8", "utf-8", "latin-1", "ascii", "cp1252", "iso8859-15"])
     return {"property": "C09", "seed": seed,
             "config": {"keywords": kw, "include": inc, "exclude": exc},
             "corpus": [c.hex() for c in corpus], "worlds": worlds}
@@ -420,6 +462,10 @@ def gen_c18(seed, shipped, tier="quick"):
     rng = random.Random(seed)
     layout = gen_layout(rng, collisions=True)
     ops = []
+    if rng.random() < 0.3:
+        # some decoder modules are already imported (for a helper, say) before the first registry is built
+        for m in rng.sample(MODULES, rng.randint(1, 3)):
+            ops.append(["import", m])
     for _ in range(rng.randint(1, 8)):
         r = rng.random()
         inc, exc = gen_filter(rng)
@@ -438,6 +484,7 @@ def gen_c18(seed, shipped, tier="quick"):
         "enum_seed": rng.choice([0, rng.randrange(1, 1 << 30), rng.randrange(1, 1 << 30), rng.randrange(1, 1 << 30)]),
         "io_seed": rng.randrange(1 << 30), "env_seed": rng.randrange(1 << 30), "io": io_knobs(rng),
         "env": {"LC_ALL": rng.choice([None, "C", "C.UTF-8"]), "opt": rng.choice(["", "", "-O"])},
+        "kwdir_form": rng.choice(KWDIR_FORMS), "lib_sched": lib_sched_spec(rng),
         "ops": ops,
     }]
     if rng.random() < 0.25:
@@ -466,7 +513,7 @@ def gen_c20(seed, shipped, tier="quick", faults=None):
         hot = [rng.choice(c) for c in rng.sample(shipped["case_classes"], min(2, len(shipped["case_classes"])))]
         hot += rng.sample(shipped["multi_file"], min(2, len(shipped["multi_file"])))
         words = rng.sample(shipped["all"], min(10, len(shipped["all"])))
-    data = gen_input(rng, words, hot, exotic=rng.random() < 0.5)
+    data = gen_input(rng, words, hot, exotic=rng.random() < 0.5, bulk=rng.random() < 0.12)
     runs = []
     for _ in range(rng.randint(2, 6)):
         mode = rng.choice(["json", "json", "default", "default", "replace"])
@@ -491,6 +538,7 @@ def gen_c20(seed, shipped, tier="quick", faults=None):
              "enum_seed": rng.choice([0, rng.randrange(1, 1 << 30), rng.randrange(1, 1 << 30)]),
              "io_seed": rng.randrange(1 << 30), "env_seed": rng.randrange(1 << 30), "io": io_knobs(rng),
              "env": {"LC_ALL": rng.choice([None, "C", "C.UTF-8"]), "opt": rng.choice(["", "", "-O"])},
+             "kwdir_form": rng.choice(KWDIR_FORMS), "lib_sched": lib_sched_spec(rng),
              "runs": runs}
     return {"property": "C20", "seed": seed, "family": "faults" if faults else "fault_free",
             "layout": layout, "input": data.hex(), "worlds": [world]}
